@@ -623,6 +623,9 @@ func vfProto(env *vfc.Env) {
 				}
 			}
 			class := c.Class + state
+			if len(c.Val) > 10240 {
+				class += "/body>10K" // beyond the compression probe size
+			}
 			res.Begin(id, map[string]interface{}{"class": class, "cmd": c})
 			res.Eval(1)
 			pm.expect(c)
@@ -635,6 +638,15 @@ func vfProto(env *vfc.Env) {
 				break
 			}
 			now := srv.quiesce()
+			if c.Kind == "store" && len(c.Keys) > 0 && len(c.Val) > 0 {
+				// what the server decided for this value (inspected on the stored record)
+				if e := pm.m.M[c.Keys[0]]; e == nil || e.Ver < 0 {
+					// not stored according to the reference map (refused, invalid key, ...)
+				} else if _, comp := srv.sut.Info(c.Keys[0]); comp {
+					class += "/server-compressed"
+					res.Event("attrib.stores_server_compressed", 1)
+				}
+			}
 			if d := now.minus(base); !d.zero() {
 				report(id, class, d, map[string]interface{}{"class": class, "cmd": c})
 				base = now
